@@ -272,7 +272,9 @@ func (x *approvex) runCaseTag(sp *space, idx int64, a, b core.Files, tag string)
 	if err != nil {
 		_, isSafety := err.(*safetyErr)
 		if !isSafety {
-			if x.orc.exec {
+			if x.orc.exec || x.orc.conv {
+				// a rejected command aborts approve: the device cannot
+				// reach the target either
 				x.violation(sp, idx, a, b, script, step, "exec-accept",
 					tag+"exec:"+execSig(err), fmt.Sprintf("command %q: %v", cmd, err))
 			} else {
